@@ -73,3 +73,62 @@ func vC14Early(L int) {
 
 func vhC14_early_L2() { vC14Early(2) }
 func vhC14_early_L3() { vC14Early(3) }
+
+// C14 for multi-source operators: never-ending hot probes, a multi-source catalogue entry, then an
+// early terminator; values are emitted on a symbolic source.  When the downstream side terminates
+// every source must be released and the Subscribe call must return.
+func vC14Multi(L int) {
+	op := &vMCatalog[vChoice("entry", len(vMCatalog))]
+	term := vChoice("term", 3) // 0 Take(1..L), 1 First, 2 external Unsubscribe
+	vPost = vPostCfg{}
+	switch term {
+	case 0:
+		vPost.take = int64(1 + vChoice("take", L))
+	case 1:
+		vPost.first = true
+	}
+	probes := make([]*vProbe, op.nsrc)
+	srcs := make([]Observable[int64], op.nsrc)
+	for i := range probes {
+		probes[i] = &vProbe{name: "src" + vItoa(i)}
+		srcs[i] = probes[i]
+	}
+	c := &vCtx{src: srcs, L: L}
+	pipe := op.mk(c)
+	rec := &vRecorder{}
+	returned := false
+	var sub Subscription
+	vGo(func() {
+		sub = pipe(context.Background(), rec)
+		returned = true
+	})
+	vQuiesce()
+	for i := 0; i < L+1; i++ {
+		k := vChoice("src"+vItoa(i), op.nsrc)
+		if probes[k].live > 0 {
+			probes[k].emit(vStep{vkNext, vInt64("v" + vItoa(i))})
+		}
+		vQuiesce()
+	}
+	if term == 2 {
+		if !returned {
+			vAssume(false) // no handle to unsubscribe with while Subscribe is still running
+		}
+		sub.Unsubscribe()
+	}
+	vQuiesce()
+	vPost = vPostCfg{}
+	vCheckGrammar(op.name, rec)
+	if rec.terminals() > 0 || term == 2 {
+		for _, p := range probes {
+			vAssert(p.live == 0, op.name+": a source is still subscribed after the downstream side terminated")
+		}
+		vAssert(returned, op.name+": the Subscribe call is still running after the downstream side terminated")
+		run, blk := vLive()
+		vAssert(run+blk == 0, op.name+": a library goroutine is left after the downstream side terminated")
+	}
+	vReach("end")
+}
+
+func vhC14_multi_L1() { vC14Multi(1) }
+func vhC14_multi_L2() { vC14Multi(2) }
